@@ -128,6 +128,20 @@ Proof.
   eapply Rle_trans; [|apply Rmax_l].
   apply Rmult_le_compat_l; [exact Htol|apply HM].
 Qed.
+(** Non-expansive systems: the bound is the accepted bound itself. *)
+Theorem next_step_nonexpansive (lastv prev : I -> R) tol M :
+  0 <= L <= 1 ->
+  (forall i, lastv i = G prev i) ->
+  (forall j, acceptR tol (lastv j) (prev j) = true) ->
+  (forall j, Rabs (lastv j) <= M) -> 0 <= tol ->
+  forall i, Rabs (G lastv i - lastv i) <= Rmax tol (Rmax (tol * M) (2 * nearR)).
+Proof.
+  intros [HL0 HL1] Hlast Hacc HM Htol i.
+  eapply Rle_trans; [apply (next_step_accepted lastv prev tol M HL0 Hlast Hacc HM Htol)|].
+  set (Bd := Rmax tol (Rmax (tol * M) (2 * nearR))).
+  assert (HB : 0 <= Bd) by (eapply Rle_trans; [exact Htol|apply Rmax_l]).
+  rewrite <- (Rmult_1_l Bd) at 2. apply Rmult_le_compat_r; assumption.
+Qed.
 End NextStep.
 
 (** D15b: for an expansive one-period map the statement "one further period stays within
@@ -155,6 +169,53 @@ Proof.
   - destruct (acceptR _ _ _) eqn:E; [|reflexivity]. exfalso.
     apply acceptR_iff in E. unfold steady_enough, nearR in E.
     rewrite !Rabs_pos_eq in E by lra. lra.
+Qed.
+
+(** D15c: a NON-expansive map ([L] = 1) whose variables have very different sizes.  Two
+    variables near 1000 rotate by a quarter turn about (1000, 1000); a third, of size 1, is
+    the first one lagged minus 999.  Every variable passes the test at tolerance 1e-4, yet the
+    small one then moves by 0.09.  (The bound of [next_step_accepted] holds: 0.09 <= 1e-4 * 1000.) *)
+Inductive var3 := X1 | X3 | X2.
+
+Definition Grot (u : var3 -> R) : var3 -> R := fun i =>
+  match i with
+  | X1 => - u X3 + 2000
+  | X3 => u X1
+  | X2 => u X1 - 999
+  end.
+
+Lemma Grot_nonexpansive u v d :
+  (forall j, Rabs (u j - v j) <= d) -> forall i, Rabs (Grot u i - Grot v i) <= 1 * d.
+Proof.
+  intros H i. rewrite Rmult_1_l. destruct i; unfold Grot.
+  - replace (- u X3 + 2000 - (- v X3 + 2000)) with (- (u X3 - v X3)) by lra. rewrite Rabs_Ropp. apply H.
+  - apply H.
+  - replace (u X1 - 999 - (v X1 - 999)) with (u X1 - v X1) by lra. apply H.
+Qed.
+
+Definition prev_rot : var3 -> R := fun i =>
+  match i with X1 => 1000 | X3 => 1000 + 9 / 100 | X2 => 1 end.
+
+Theorem next_step_mixed_scale_refuted :
+  let lastv := Grot prev_rot in
+  (forall j, acceptR (1 / 10000) (lastv j) (prev_rot j) = true) /\
+  acceptR (1 / 10000) (Grot lastv X2) (lastv X2) = false.
+Proof.
+  cbn zeta. split.
+  - intros j. apply acceptR_iff. unfold steady_enough, nearR. destruct j; unfold Grot, prev_rot.
+    + right; left. split.
+      * rewrite Rabs_pos_eq; lra.
+      * replace (- (1000 + 9 / 100) + 2000 - 1000) with (- (9 / 100)) by lra.
+        rewrite Rabs_Ropp, !Rabs_pos_eq; lra.
+    + right; left. split.
+      * rewrite Rabs_pos_eq; lra.
+      * replace (1000 - (1000 + 9 / 100)) with (- (9 / 100)) by lra.
+        rewrite Rabs_Ropp, !Rabs_pos_eq; lra.
+    + left. replace (1000 - 999 - 1) with 0 by lra. rewrite Rabs_R0. lra.
+  - destruct (acceptR _ _ _) eqn:E; [|reflexivity]. exfalso.
+    apply acceptR_iff in E. unfold steady_enough, nearR, Grot, prev_rot in E.
+    replace (- (1000 + 9 / 100) + 2000 - 999 - (1000 - 999)) with (- (9 / 100)) in E by lra.
+    rewrite Rabs_Ropp in E. rewrite !Rabs_pos_eq in E by lra. lra.
 Qed.
 
 Local Close Scope R_scope.
